@@ -10,6 +10,7 @@ import S2T.Props.C13_Rtf
 import S2T.Props.C13_RtfLayout
 import S2T.Props.C13_Slide
 import S2T.Props.C13_Src
+import S2T.Props.C13_Xml
 /-!
 # C13 — tables come back with their shape and every cell in place
 
